@@ -156,6 +156,209 @@ class _DesugarEnumerate(ast.NodeTransformer):
         return [pre, new]
 
 
+class _DesugarQuantifiers:
+    """`return [P and ...] all(E for T in X)` / `any(...)` / `not any(...)` / `not all(...)` at the end of a boolean function
+    becomes the explicit loop with early return (same meaning when every P is boolean-valued: isinstance(), a comparison, `not`)."""
+
+    def run(self, tree: ast.AST) -> ast.AST:
+        for n in ast.walk(tree):
+            for fld in ("body", "orelse", "finalbody"):
+                b = getattr(n, fld, None)
+                if isinstance(b, list) and b and isinstance(b[0], ast.stmt):
+                    setattr(n, fld, self._block(b))
+            for h in getattr(n, "handlers", []) or []:
+                h.body = self._block(h.body)
+        return tree
+
+    def _block(self, body: List[ast.stmt]) -> List[ast.stmt]:
+        out: List[ast.stmt] = []
+        for st in body:
+            rep = self._rewrite(st) if isinstance(st, ast.Return) and st.value is not None else None
+            out.extend(rep if rep else [st])
+        return out
+
+    @staticmethod
+    def _boolish(e: ast.expr) -> bool:
+        if isinstance(e, ast.Compare):
+            return True
+        if isinstance(e, ast.UnaryOp) and isinstance(e.op, ast.Not):
+            return True
+        return isinstance(e, ast.Call) and isinstance(e.func, ast.Name) and e.func.id in ("isinstance", "issubclass", "callable", "hasattr", "bool")
+
+    @staticmethod
+    def _quant(e: ast.expr) -> Optional[Tuple[str, bool, ast.comprehension, ast.expr]]:
+        neg = False
+        if isinstance(e, ast.UnaryOp) and isinstance(e.op, ast.Not):
+            neg, e = True, e.operand
+        if isinstance(e, ast.Call) and isinstance(e.func, ast.Name) and e.func.id in ("all", "any") and len(e.args) == 1 and not e.keywords \
+                and isinstance(e.args[0], (ast.GeneratorExp, ast.ListComp)) and len(e.args[0].generators) == 1 \
+                and not e.args[0].generators[0].is_async:
+            return (e.func.id, neg, e.args[0].generators[0], e.args[0].elt)
+        return None
+
+    def _rewrite(self, st: ast.Return) -> Optional[List[ast.stmt]]:
+        v = st.value
+        pre: List[ast.expr] = []
+        if isinstance(v, ast.BoolOp) and isinstance(v.op, ast.And) and len(v.values) >= 2 and all(self._boolish(x) for x in v.values[:-1]):
+            pre, v = list(v.values[:-1]), v.values[-1]
+        q = self._quant(v)          # type: ignore[arg-type]
+        if q is None:
+            return None
+        kind, neg, gen, elt = q
+        # all: a falsy element decides (False); any: a truthy element decides (True); `not` flips both results
+        decide_on_truthy = kind == "any"
+        early = (kind == "any") != neg
+        test: ast.expr = elt if decide_on_truthy else ast.UnaryOp(ast.Not(), elt)
+        for c in reversed(gen.ifs):
+            test = ast.BoolOp(ast.And(), [c, test])
+        loop = ast.For(gen.target, gen.iter, [ast.If(test, [ast.Return(ast.Constant(early))], [])], [], None)
+        out: List[ast.stmt] = [ast.If(ast.UnaryOp(ast.Not(), p), [ast.Return(ast.Constant(False))], []) for p in pre]
+        out += [loop, ast.Return(ast.Constant(not early))]
+        for n in out:
+            ast.copy_location(n, st)
+            ast.fix_missing_locations(n)
+        return out
+
+
+class _Rename(ast.NodeTransformer):
+    def __init__(self, mapping: Dict[str, ast.expr]):
+        self.mapping = mapping
+
+    def visit_Name(self, node: ast.Name) -> Any:
+        m = self.mapping.get(node.id)
+        if m is None:
+            return node
+        if isinstance(m, ast.Name):
+            return ast.copy_location(ast.Name(m.id, node.ctx), node)
+        import copy as _c
+        return ast.copy_location(_c.deepcopy(m), node)
+
+
+def _filter_generator_shape(fn: ast.FunctionDef) -> Optional[Tuple[ast.For, List[ast.stmt], Optional[ast.expr], ast.expr]]:
+    """`def g(p..): for x in X: [if c: continue]* (yield v | if t: yield v)` -> (loop, guards, yield-condition, yielded value)."""
+    a = fn.args
+    if a.vararg or a.kwarg or a.kwonlyargs or a.defaults or a.posonlyargs:
+        return None
+    if any(ast.unparse(d).split(".")[-1] != "staticmethod" for d in fn.decorator_list):
+        return None
+    body = body_without_docstring(fn)
+    if len(body) != 1 or not isinstance(body[0], ast.For) or body[0].orelse:
+        return None
+    loop = body[0]
+    n_y = sum(isinstance(n, (ast.Yield, ast.YieldFrom)) for n in ast.walk(fn))
+    if n_y != 1 or not loop.body:
+        return None
+    guards, last = loop.body[:-1], loop.body[-1]
+    for g in guards:
+        if not (isinstance(g, ast.If) and not g.orelse and len(g.body) == 1 and isinstance(g.body[0], ast.Continue)):
+            return None
+    if isinstance(last, ast.Expr) and isinstance(last.value, ast.Yield) and last.value.value is not None:
+        return (loop, guards, None, last.value.value)
+    if isinstance(last, ast.If) and not last.orelse and len(last.body) == 1 and isinstance(last.body[0], ast.Expr) \
+            and isinstance(last.body[0].value, ast.Yield) and last.body[0].value.value is not None:
+        return (loop, guards, last.test, last.body[0].value.value)
+    return None
+
+
+class _InlineFilterGenerators:
+    """`for T in g(args): BODY` with g a pure filter/map generator (one loop, guards that `continue`, one yield) becomes the
+    loop over g's own iterable with g's guards in front of BODY - same iteration order, same laziness, same break/continue."""
+
+    def __init__(self, module: "Module"):
+        self.m = module
+        self.count = 0
+
+    def lookup(self, call: ast.Call, cls: Optional[str]) -> Optional[Tuple[ast.FunctionDef, Optional[ast.expr]]]:
+        f = call.func
+        if call.keywords or any(isinstance(x, ast.Starred) for x in call.args):
+            return None
+        if isinstance(f, ast.Name) and f.id in self.m.functions:
+            return (self.m.functions[f.id], None)
+        if isinstance(f, ast.Attribute) and isinstance(f.value, ast.Name):
+            owner = f.value.id
+            ci = self.m.classes.get(cls) if owner in ("self", "cls") and cls else self.m.classes.get(owner)
+            if ci is not None and f.attr in ci.methods:
+                fn = ci.methods[f.attr]
+                static = any(ast.unparse(d).split(".")[-1] == "staticmethod" for d in fn.decorator_list)
+                if static:
+                    return (fn, None)
+                if owner == "self":
+                    return (fn, f.value)
+        return None
+
+    def run(self) -> None:
+        for nm, fn in list(self.m.functions.items()):
+            self._function(fn, None)
+        for ci in self.m.classes.values():
+            for fn in ci.methods.values():
+                self._function(fn, ci.name)
+
+    def _function(self, fn: ast.FunctionDef, cls: Optional[str]) -> None:
+        for n in ast.walk(fn):
+            for fld in ("body", "orelse", "finalbody"):
+                b = getattr(n, fld, None)
+                if isinstance(b, list) and b and isinstance(b[0], ast.stmt):
+                    setattr(n, fld, self._block(b, cls))
+
+    def _block(self, body: List[ast.stmt], cls: Optional[str]) -> List[ast.stmt]:
+        out: List[ast.stmt] = []
+        for st in body:
+            rep = self._rewrite(st, cls) if isinstance(st, ast.For) and isinstance(st.iter, ast.Call) and not st.orelse else None
+            out.extend(rep if rep else [st])
+        return out
+
+    def _rewrite(self, st: ast.For, cls: Optional[str]) -> Optional[List[ast.stmt]]:
+        hit = self.lookup(st.iter, cls)       # type: ignore[arg-type]
+        if hit is None:
+            return None
+        g, recv = hit
+        shape = _filter_generator_shape(g)
+        if shape is None:
+            return None
+        loop, guards, ycond, yval = shape
+        params = [a.arg for a in g.args.args]
+        args = list(st.iter.args)             # type: ignore[attr-defined]
+        if recv is not None:
+            if not params:
+                return None
+            self_param, params = params[0], params[1:]
+        else:
+            self_param = None
+        if len(params) != len(args):
+            return None
+        self.count += 1
+        tag = f"__g{self.count}_"
+        mapping: Dict[str, ast.expr] = {}
+        pre: List[ast.stmt] = []
+        if self_param is not None:
+            mapping[self_param] = recv           # type: ignore[assignment]
+        for p_, a_ in zip(params, args):
+            if isinstance(a_, ast.Name):
+                mapping[p_] = a_
+            else:
+                tmp = ast.Name(tag + p_, ast.Load())
+                pre.append(ast.Assign([ast.Name(tag + p_, ast.Store())], a_))
+                mapping[p_] = tmp
+        # the generator's own locals (loop targets) get fresh names
+        for n in ast.walk(loop.target):
+            if isinstance(n, ast.Name):
+                mapping[n.id] = ast.Name(tag + n.id, ast.Load())
+        import copy as _c
+        rn = _Rename(mapping)
+        new_target = rn.visit(_c.deepcopy(loop.target))
+        new_iter = rn.visit(_c.deepcopy(loop.iter))
+        new_guards = [rn.visit(_c.deepcopy(gd)) for gd in guards]
+        bind = ast.Assign([st.target], rn.visit(_c.deepcopy(yval)))
+        inner: List[ast.stmt] = [bind] + list(st.body)
+        if ycond is not None:
+            inner = [ast.If(rn.visit(_c.deepcopy(ycond)), inner, [])]
+        new = ast.For(new_target, new_iter, new_guards + inner, [], None)
+        for n in pre + [new]:
+            ast.copy_location(n, st)
+            ast.fix_missing_locations(n)
+        return pre + [new]
+
+
 class Module:
     def __init__(self, name: str, rel: str, src: str):
         self.name = name
@@ -166,12 +369,14 @@ class Module:
         except SyntaxError as e:  # pragma: no cover
             raise AnalysisError(f"{rel} does not parse: {e}")
         self.tree = _DesugarEnumerate().visit(self.tree)
+        self.tree = _DesugarQuantifiers().run(self.tree)
         self.functions: Dict[str, ast.FunctionDef] = {}
         self.classes: Dict[str, ClassInfo] = {}
         self.assigns: Dict[str, List[ast.stmt]] = {}
         self.imports: Dict[str, Tuple[str, Optional[str]]] = {}
         self.func_def_counts: Dict[str, int] = {}
         self._index(self.tree.body)
+        _InlineFilterGenerators(self).run()
 
     def _index(self, body: Iterable[ast.stmt]) -> None:
         for st in body:
@@ -554,6 +759,16 @@ class Program:
                         return getattr(base, f.attr)(*args)
                     except Exception:
                         raise NotConst("method")
+            if isinstance(f, ast.Name) and f.id in ("range", "len") and not expr.keywords:
+                args = [self.fold(a, mod, env) for a in expr.args]
+                try:
+                    if f.id == "len":
+                        return len(*args)
+                    if all(isinstance(a, int) and not isinstance(a, bool) for a in args) and len(range(*args)) <= 4096:
+                        return list(range(*args))
+                except Exception:
+                    pass
+                raise NotConst(f.id)
             if isinstance(f, ast.Name) and f.id == "sorted" and len(expr.args) == 1 and not expr.keywords:
                 try:
                     return sorted(self.fold(expr.args[0], mod, env))
@@ -562,6 +777,25 @@ class Program:
                 except Exception:
                     raise NotConst("sorted")
             raise NotConst("call")
+        if isinstance(expr, (ast.ListComp, ast.GeneratorExp, ast.SetComp, ast.DictComp)) and len(expr.generators) == 1 \
+                and isinstance(expr.generators[0].target, ast.Name) and not expr.generators[0].is_async:
+            g = expr.generators[0]
+            seq = self.fold(g.iter, mod, env)
+            if not isinstance(seq, (list, tuple, set, frozenset, dict, str)):
+                raise NotConst("comprehension iterable")
+            items = sorted(seq, key=repr) if isinstance(seq, (set, frozenset)) else list(seq)
+            outl: List[Any] = []
+            outd: Dict[Any, Any] = {}
+            for x in items:
+                env2 = dict(env, **{g.target.id: x})
+                if all(self.fold(c, mod, env2) for c in g.ifs):
+                    if isinstance(expr, ast.DictComp):
+                        outd[self.fold(expr.key, mod, env2)] = self.fold(expr.value, mod, env2)
+                    else:
+                        outl.append(self.fold(expr.elt, mod, env2))
+            if isinstance(expr, ast.DictComp):
+                return outd
+            return set(outl) if isinstance(expr, ast.SetComp) else outl
         if isinstance(expr, ast.Starred):
             raise NotConst("starred")
         if isinstance(expr, ast.Subscript):
@@ -715,8 +949,15 @@ def reflection_sites(prog: Program) -> List[Dict[str, Any]]:
         for qn, fn in iter_functions(m):
             for n in ast.walk(fn):
                 fn_of.setdefault(id(n), qn)
+        compared: set = set()
+        for n in ast.walk(m.tree):
+            if isinstance(n, ast.Compare):
+                for c in [n.left] + list(n.comparators):
+                    compared.add(id(c))
         for n in ast.walk(m.tree):
             where = fn_of.get(id(n), "<module>")
+            if isinstance(n, ast.Call) and isinstance(n.func, ast.Name) and n.func.id == "getattr" and len(n.args) == 3 and id(n) in compared:
+                continue      # a field read with a default whose value is only compared (the equality helper's idiom)
             if isinstance(n, ast.Call) and isinstance(n.func, ast.Name) and n.func.id in _FORBIDDEN_CALLS:
                 out.append({"kind": n.func.id, "module": m.name, "where": where, "text": ast.unparse(n)})
             if isinstance(n, ast.Call) and isinstance(n.func, ast.Name) and n.func.id == "getattr":
